@@ -335,6 +335,9 @@ def writeLhsC (σ : MState) (lhs : CExpr) (v : Val) : Except Stuck MState :=
   match lhs with
   | .var n _ => .ok { σ with locals := setLocal σ.locals n v }
   | .reg n k _ => writeRegC σ n k v
+  | .imm l _ => (match v with
+      | .bv _ x => .ok { σ with imm := fun q => if q == l then x.toNat else σ.imm q }
+      | _ => .error (.sort "immediate write"))
   | _ => .error (.undef "assignment target")
 
 theorem execC_assign (ms : MacroSem) (f : Nat) (lhs : CExpr) (op : String) (e : CExpr) (σ : MState) :
@@ -342,7 +345,7 @@ theorem execC_assign (ms : MacroSem) (f : Nat) (lhs : CExpr) (op : String) (e : 
       let v ← evalC ms σ (compoundExpr lhs op e)
       let v ← convC (typeOfC (compoundExpr lhs op e)) (typeOfC lhs) v
       writeLhsC σ lhs v) := by
-  cases lhs <;> simp only [execC, writeLhsC]
+  cases lhs <;> first | (simp only [execC, writeLhsC]; done) | (simp only [execC, writeLhsC]; rfl)
 
 theorem lhs_facts {c : Ctx} {env : CEnv} (henv : env.cfg = Cfg.fixed) {lhs : CExpr}
     (hl : lhsOK c lhs = true) {cd : CE} (hcd : compileExpr env lhs = .ok cd) :
